@@ -199,6 +199,37 @@ Definition disciplinedb_auto (B : list thread) : bool := disciplinedb B (assoc (
 Definition unprotected (B : list thread) : list nat :=
   filter (fun x => needs_lockb B x && negb (existsb (loc_ok B x) (mutexes B))) (locations B).
 
+(* ---- isolation discipline: which shared locations request-phase code may write ---- *)
+
+(* why a request-phase write to a shared location is acceptable:
+   WMemo      a memo table, cache[k] := F k with F a function of the key (memo_isolation)
+   WMonotone  counter / sampler / shutdown-flag state whose influence on later requests
+              is the documented purpose of the helper
+   WPrivate   storage owned by one request by construction (its own key, its own object) *)
+Inductive wclass := WMemo | WMonotone | WPrivate.
+
+Definition writes_of (th : thread) : list nat :=
+  flat_map (fun a => match acc_loc a with
+                     | Some x => if acc_write a then [x] else []
+                     | None => [] end) th.
+
+Fixpoint classified (cls : list (nat * wclass)) (x : nat) : bool :=
+  match cls with [] => false | (y, _) :: r => Nat.eqb x y || classified r x end.
+
+(* every write of a request body (plain OR atomic: atomic.Store, sync.Map.Store,
+   sync.Pool.Put ...) and every opaque mutation (mutator-named method called on a shared
+   object whose type the translator cannot resolve) hits a classified location *)
+Definition isolated (B : list thread) (opaque : list nat) (cls : list (nat * wclass)) : Prop :=
+  (forall th i a x, In th B -> nth_error th i = Some a -> acc_loc a = Some x -> acc_write a = true ->
+     exists c, In (x, c) cls) /\
+  (forall x, In x opaque -> exists c, In (x, c) cls).
+
+Definition isolatedb (B : list thread) (opaque : list nat) (cls : list (nat * wclass)) : bool :=
+  forallb (fun th => forallb (classified cls) (writes_of th)) B && forallb (classified cls) opaque.
+
+Definition unclassified_writes (B : list thread) (opaque : list nat) (cls : list (nat * wclass)) : list nat :=
+  nodup_nat (filter (fun x => negb (classified cls x)) (flat_map writes_of B ++ opaque)).
+
 (* ---- sessions: one goroutine serving several requests one after the other ---- *)
 
 Definition balanced (th : thread) : Prop := held_after th ([], []) = ([], []).
